@@ -31,6 +31,7 @@ def run(repo: Repo, chk: Check) -> None:
     l1_recipe(repo, chk)
     kdf_context(repo, chk)
     kdf_wrapper(repo, chk)
+    consumer(repo, chk)
     # the cache's cover test decides which seed material reaches compute_l2_key (anchor: KeyCache._get_key)
     from .c10 import get_key
 
@@ -283,6 +284,24 @@ def l1_recipe(repo: Repo, chk: Check) -> None:
     chk.ob("O3", Site.of(f, rets[0]), len(rets) == 1 and rets[0].value is calls[1], "returns the L1(31) seed")
 
 
+def consumer(repo: Repo, chk: Check) -> None:
+    """The decrypt side takes its L2 key only from compute_l2_key for the blob's (L1, L2): no shortcut around the derivation."""
+    from sa.flow import provenance
+
+    f = repo.method("_gkdi.GroupKeyEnvelope", "get_kek")
+    chk.analysed(f)
+    rd = ReachingDefs(f)
+    uses = [n for n in body_nodes(f.node) if isinstance(n, ast.Call) and unparse(n.func) in ("kdf", "compute_kek_from_public_key")]
+    want_tail = ", key_id.l1, key_id.l2, self)"
+    for c in uses:
+        arg = c.args[1] if unparse(c.func) == "kdf" and len(c.args) > 1 else next((k.value for k in c.keywords if k.arg == "seed"), None)
+        if arg is None:
+            continue
+        pv = provenance(rd, arg, c)
+        ok = pv.startswith("compute_l2_key(") and pv.endswith(want_tail)
+        chk.ob("O3", Site.of(f, c, f"{unparse(c.func)}: L2 key"), ok, "L2 key = compute_l2_key(hash, key_id.l1, key_id.l2, self)" if ok else f"the L2 key used here is '{pv[:90]}': on some path it does not come from compute_l2_key for the blob's position (an envelope's own l2_key may be absent or belong to another position)")
+
+
 def kdf_context(repo: Repo, chk: Check) -> None:
     f = repo.func("_gkdi.compute_kdf_context")
     chk.analysed(f)
@@ -341,6 +360,17 @@ def conventions(repo: Repo, chk: Check, f: Func) -> None:
                     return None
         return rows
 
+    rd = ReachingDefs(f)
+
+    def reads_envelope_position(stmt: ast.stmt, e: ast.expr) -> t.Optional[str]:
+        """Locals used in the predicate must still hold the envelope's position (only their initial alias reaches)."""
+        for n in ast.walk(e):
+            if isinstance(n, ast.Name) and n.id in al and al[n.id].rsplit(".", 1)[-1] in ("l1", "l2"):
+                ds = rd.reaching(n.id, n)
+                if not (len(ds) == 1 and ds[0].value is not None and unparse(ds[0].value) == al[n.id]):
+                    return f"'{n.id}' has already been modified when '{unparse(e)}' is evaluated: the decision must be taken on the envelope's own position ({al[n.id]})"
+        return None
+
     # reseed flag initial value
     init = [s for s in f.node.body if isinstance(s, ast.Assign) and unparse(s.targets[0]) == "reseed_l2"]
     ifs = [n for n in body_nodes(f.node) if isinstance(n, ast.If) and unparse(n.test) == "reseed_l2"]
@@ -350,6 +380,9 @@ def conventions(repo: Repo, chk: Check, f: Func) -> None:
     else:
         rows = table(init[0].value)
         site = Site.of(f, init[0])
+        stale = reads_envelope_position(init[0], init[0].value)
+        if stale:
+            chk.ob("O4", site, False, stale)
         if rows is None:
             chk.ob("O4", site, False, f"reseed condition '{unparse(init[0].value)}' is not a predicate of (L2 == 31, seed L1 vs requested L1)")
         else:
@@ -363,6 +396,9 @@ def conventions(repo: Repo, chk: Check, f: Func) -> None:
         chk.ob("O4", site, False, "the envelope convention 'L1 key is for L1-1 unless L2 == 31' is not applied before the L1 walk")
     else:
         rows = table(pre[0].test)
+        stale = reads_envelope_position(pre[0], pre[0].test)
+        if stale:
+            chk.ob("O4", site, False, stale)
         if rows is None:
             chk.ob("O4", site, False, f"pre-decrement condition '{unparse(pre[0].test)}' is not a predicate of (L2 == 31, seed L1 vs requested L1)")
         else:
